@@ -37,8 +37,16 @@ LEAF_BUDGET = [MAX_LEAVES]   # lowered in the quick tier; replays use the full b
 _ENV = None
 
 
-def nd_env():
+_LIMITED = {}
+
+
+def nd_env(limit=None):
     global _ENV
+    if limit is not None:
+        if limit not in _LIMITED:
+            _LIMITED[limit] = (lib.make_env(nondeterministic=True, max_recursion_depth=limit),
+                               lib.make_env(nondeterministic=False, max_recursion_depth=limit))
+        return _LIMITED[limit][0]
     if _ENV is None:
         _ENV = lib.make_env(nondeterministic=True)
     return _ENV
@@ -308,7 +316,12 @@ def examine_sampled(case):
     q, ast, doc = case["q"], case["ast"], case["doc"]
     if case.get("alias"):
         doc = V.alias(doc, case["alias"])
-    env = nd_env()
+    env = nd_env(case.get("limit"))
+    if case.get("limit") is not None:
+        # a configured max_recursion_depth that the deterministic mode gets by with must do for this mode too
+        st, _ = lib.find(q, doc, _LIMITED[case["limit"]][1])
+        if st != "ok":
+            return None
     det = [l for l, _ in ev.find(ast, doc)]
     state = _random.getstate()
     try:
@@ -515,12 +528,15 @@ def run_shard(spec, shard):
             doc = [core] + pad if k == 0 else pad + [core] if k == 1 else pad[: len(pad) // 2] + [core] + pad[len(pad) // 2:]
         ast, text = gen_query(r, shard, doc, nseg_max=r.choice([1, 1, 2, 3]))
         case = {"kind": "sampled", "q": text, "ast": ast, "doc": doc, "seeds": [r.randrange(10**9) for _ in range(6)]}
+        if r.random() < 0.25 and "descendant" in Q.features(ast):
+            depth = V.depth(doc) if hasattr(V, "depth") else 6
+            case["limit"] = r.randint(1, max(1, depth) + 1)
         shared = r.random() < 0.2
         if shared:
             # the same sub-object referenced from several places (a DAG, not a cycle): every reference is a node
             case["alias"] = r.randrange(1, 2**31)
         shard.case(key=(text, doc, "sampled", case.get("alias")), nontrivial="descendant" in Q.features(ast) or "wild" in Q.features(ast),
-                   classes={"sampled"} | ({"sampled:shared-sub-objects"} if shared else set()), sample=None)
+                   classes={"sampled"} | ({"sampled:shared-sub-objects"} if shared else set()) | ({"sampled:tight-recursion-limit"} if "limit" in case else set()), sample=None)
         f = examine(case)
         if f:
             shard.fail(f["bucket"], case, f)
